@@ -62,6 +62,12 @@ def run(tier):
                      f"{len(rargs)} routes (distances 5..60 in eight directions x free / walled / scattered ground x no / same-network / other-network earlier routes on the same or the other "
                      "colour): every hop within the span, every relay carries this network alone on this colour, new relays on free tiles and in the plan, a path is always found on "
                      "free ground (contract evaluated on the real RelayNetwork.route_signal and the five functions below it)")
+    from contracts import c12 as _c12
+    pcargs = _c12.plan_connections_arg_sets()
+    cr.bounded_check(run_contract_enum, "plan-connections-box", _c12.plan_connections_c, pcargs,
+                     f"{len(pcargs)} wire plans (1..5 graph edges incl. an internal feedback signal and a memory feedback edge x merge / lock modes x earlier wires x failing step): circuit "
+                     "edges = graph edges minus internal feedback; colour = edge lock, else planned, none for memory feedback; earlier wires restored once each after the new ones; "
+                     "True iff nothing flagged a routing failure (contract evaluated on the real ConnectionPlanner.plan_connections, sub-steps recorded)")
     progs = scope(tier)
     modes = MODES_QUICK if tier == "quick" else MODES_FULL
     cr.bounded_check(run_geometry_scope, "pasteable", progs, modes, ("paste", "relay"),
